@@ -105,6 +105,9 @@ func c02(r *Report) propMeta {
 	r.NotAfter("resolve-before-expiry (invariant behind the accepted MustGetRequest panic)", "x/oracle.EndBlocker", CallEff("Keeper.ResolveRequest"), CallEff("Keeper.ProcessExpiredRequests"))
 	r.NotAfter("aggregate-before-expiry (invariant behind the accepted MustGetSigningAttempt panic)", "x/tss/keeper.Keeper.HandleSigningEndBlock", CallEff("Keeper.AggregatePartialSignatures"), CallEff("Keeper.HandleExpiredSignings"))
 
+	r.Rule("C02.R7", "swallowed-error census in begin/end-block code")
+	r.Swallowed("swallowed", fnSet(roots.ABCI), c02SwallowAllow, 3)
+
 	r.Rule("C02.R6", "parameter safety: divisors and percentages")
 	r.ParamSafety("param-safety", fnSet(roots.Msg, roots.ABCI, roots.IBC, roots.Hook, roots.Ante), 3)
 
@@ -144,7 +147,7 @@ func c02(r *Report) propMeta {
 			"R2 every explicit panic / Must* call reachable without a recover barrier from a begin/end-block root is in the frozen accepted table (a new one fails with its call path)",
 			"R3 signing creation / packet sending reached from end-block sits under a CacheContext whose writeFn is gated by err==nil, and cross-module routes sit under a defer-recover that assigns the named error result",
 			"R4 orderBeginBlockers/orderEndBlockers are literals of constants containing every module that implements Begin/EndBlock exactly once",
-			"R6 every governance parameter that consensus-reachable code divides by (integer / or %) is validated positive, and every one used as a percentage (NewDecWithPrec(x,2)) is validated <= 100 in its Params.Validate (finding F3, fixed)", "R5 bandrng.NewRng is called only by the two committee selectors and its inputs derive only from the rolling seed, the id/nonce parameter and the chain id",
+			"R7 every error that begin/end-block code tests and then does not propagate is in a frozen, justified table (16 sites today); a new swallowed error fails with its call path", "R6 every governance parameter that consensus-reachable code divides by (integer / or %) is validated positive, and every one used as a percentage (NewDecWithPrec(x,2)) is validated <= 100 in its Params.Validate (finding F3, fixed)", "R5 bandrng.NewRng is called only by the two committee selectors and its inputs derive only from the rolling seed, the id/nonce parameter and the chain id",
 		},
 		Undecided: []string{"feasibility of the accepted panic sites (each rests on a store invariant recorded in the table, not proven)", "determinism of dependencies (SDK, go-owasm, IAVL)", "equality of gas across nodes beyond the absence of nondeterministic constructs"},
 		Assume:    []string{"begin/end-block panics are not recovered by the SDK; message panics are (runTx)", "VTA call graph over-approximates dynamic dispatch in repo code", "KV iterators are ordered"},
@@ -152,6 +155,30 @@ func c02(r *Report) propMeta {
 }
 
 var dumpCensus = false
+
+const (
+	whyRO    = "the callee only reads state (and parses) before any failure point"
+	whyCache = "the callee runs on a CacheContext whose writeFn is gated by err == nil (checked by the E6 rules)"
+)
+
+var c02SwallowAllow = []swallowAllow{
+	{"pkg/tickmath.PriceToTick", "tickmath.tickToPriceX96", "pure function"},
+	{"x/bandtss/keeper.Keeper.createSigningRequest", "TSSKeeper.RequestSigning", whyCache + " (incoming-group signing is best effort, C18.R6)"},
+	{"x/bandtss/keeper.TSSCallback.OnGroupCreationCompleted", "Keeper.CreateTransitionSigning", whyCache + "; on failure the transition is ended"},
+	{"x/bandtss/keeper.TSSCallback.OnSigningTimeout", "Keeper.GetMember", whyRO},
+	{"x/feeds/keeper.Keeper.CalculatePrices$1", "types.ValAddressFromBech32", whyRO},
+	{"x/feeds/keeper.Keeper.CalculatePrices", "Keeper.GetValidatorPriceList", whyRO + " (a validator without a price list simply has no prices)"},
+	{"x/feeds/keeper.Keeper.GetSignalTotalPowersByPower", "Keeper.GetSignalTotalPower", whyRO},
+	{"x/oracle/keeper.Keeper.AllocateTokens", "types.ValAddressFromBech32", whyRO},
+	{"x/oracle/keeper.Keeper.AllocateTokens", "StakingKeeper.ValidatorByConsAddr", whyRO + " (a vote of an unknown validator earns nothing)"},
+	{"x/oracle/keeper.Keeper.ResolveRequest", "Vm.Execute", "the owasm VM is deterministic and side-effect free; an execution error resolves the request as FAILURE"},
+	{"x/oracle/keeper.Keeper.ResolveSuccess", "Keeper.safeCreateSigning", whyCache + " plus a recover barrier; the failure is recorded in the signing result"},
+	{"x/oracle/keeper.Keeper.SaveResult", "ICS4Wrapper.SendPacket", "ibc-go channel SendPacket validates before it writes the sequence and the commitment; a failed send is reported by an event (the result is already stored)"},
+	{"x/tss/keeper.Keeper.GetSigningResult", "Keeper.GetSigningAttempt", whyRO},
+	{"x/tss/keeper.Keeper.HandleSigningEndBlock", "Keeper.AggregatePartialSignatures", "AggregatePartialSignatures writes nothing on its failure paths (C03.R4 / C10.R3 count rule); the signing is retried"},
+	{"x/tss/keeper.Keeper.HandleSigningEndBlock", "Keeper.InitiateNewSigningRound", whyCache + "; on failure the signing is marked FALLEN"},
+	{"x/tunnel/keeper.Keeper.ProduceActiveTunnelPackets", "Keeper.ProduceActiveTunnelPacket", "read-only until ProducePacket, which runs on a CacheContext (C08.R1); failures are reported by an event per tunnel"},
+}
 
 var c02LintAllow = []lintAllow{
 	{"x/bandtss/types.validateTimeDuration$1", "floating-point comparison", "sign test `Duration.Seconds() <= 0` in parameter validation: the outcome depends only on the sign of the int64 duration, not on rounding"},
